@@ -274,6 +274,11 @@ func (l Layout) node(sb *strings.Builder, n Node, a Ann, notes []string, indent,
 			if l.Pad > 0 {
 				inner = l.sp() // blanks between the brackets of an empty container
 			}
+			if l.Comments == 2 || l.Comments == 4 {
+				// a block comment between the brackets of an empty container (a # comment would push the closing bracket,
+				// and with it the annotation, to a line without an example: the language refuses that)
+				inner = " ### nothing in it ### "
+			}
 			sb.WriteString(indent + prefix + open + inner + close + comma + ann)
 			return
 		}
